@@ -134,14 +134,14 @@ def check(ctx):
                                'expected': T.pretty(T.conj(want_pc))[:500]})
             else:
                 ctx.holds('R2.accumulate', where, 'accumulate() executed iff f != 0 and f*w finite')
-            ok, wit = algebra_equal(a['args'][3], fw)
+            ok, wit = algebra_equal(accumulate_args(p, a)[0][3], fw)
             if ok:
                 ctx.holds('R2.accumulated_value', where, 'accumulated value is f * point.weight() '
                           '(weight applied exactly once)')
             else:
                 ctx.violation('R2.accumulated_value', where, 'accumulated value is not f*w', wit)
             this = s.this
-            sum_cell, sq_cell, comp_cell = a['args'][0], a['args'][1], a['args'][2]
+            sum_cell, sq_cell, comp_cell = accumulate_args(p, a)[0][:3]
             roles[f.record.qualname] = (sum_cell, sq_cell, comp_cell)
             if len({sum_cell, sq_cell, comp_cell}) != 3:
                 ctx.violation('R2.cells', where, 'sum, sum of squares and compensation share storage',
@@ -164,7 +164,7 @@ def check(ctx):
         def r3(f=f):
             s, ex = summarise(p, f)
             where = fsite(f)
-            names = [q.name for q in f.params]
+            names = [f.params[i].name for i in accumulate_roles(p)]
             S, Q, C, V = [sym(n) for n in names]
             check_equal(ctx, 'R3.sumsq', where, 'second accumulator += value^2',
                         ex.param_value(s, names[1]), add(Q, mul(V, V)))
